@@ -7,6 +7,7 @@ import (
 	"flag"
 	"fmt"
 	"os"
+	"strings"
 
 	"github.com/medibloc/panacea-core/v2/app"
 )
@@ -19,6 +20,14 @@ func main() {
 		os.Exit(2)
 	}
 	profile := os.Args[1]
+	// every temporary directory of this run (application homes, key directories, probe homes of child processes) lives under
+	// one directory that is removed when the run ends
+	if !strings.Contains(os.Getenv("TMPDIR"), "hx-run-") {
+		if base, err := os.MkdirTemp("", "hx-run-"); err == nil {
+			os.Setenv("TMPDIR", base)
+			defer os.RemoveAll(base)
+		}
+	}
 	fs := flag.NewFlagSet(profile, flag.ExitOnError)
 	seed := fs.Uint64("seed", 1, "PRNG seed")
 	n := fs.Int("n", 1000, "number of cases / histories")
